@@ -295,7 +295,7 @@ class Reporter:
             self.violations.append({'key': key, 'what': what, 'replay': self.violations[-1]['replay'],
                                     'no_input': no_input})
             return 'new'
-        d = os.path.join(ROOT, 'replays', self.pid)
+        d = os.path.join(os.environ.get('VERIF_REPLAY_DIR', os.path.join(ROOT, 'replays')), self.pid)
         os.makedirs(d, exist_ok=True)
         path = os.path.join(d, '%d.json' % len(self.violations))
         replay_obj = dict(replay_obj)
@@ -332,8 +332,9 @@ class Reporter:
             'violations': len(self.violations),
             'known_findings_hit': [k['id'] for k in self.known_hits],
         }
-        os.makedirs(os.path.join(ROOT, 'evidence'), exist_ok=True)
-        with open(os.path.join(ROOT, 'evidence', self.pid + '.json'), 'w') as f:
+        evdir = os.environ.get('VERIF_EVIDENCE_DIR', os.path.join(ROOT, 'evidence'))   # override: seeded-change runs only
+        os.makedirs(evdir, exist_ok=True)
+        with open(os.path.join(evdir, self.pid + '.json'), 'w') as f:
             json.dump(ev, f, indent=1, default=str)
         for k in self.known_hits:
             print('KNOWN-FINDING: property=%s %s: %s' % (self.pid, k['id'], k['what']))
